@@ -26,12 +26,14 @@ fn cps(s: &str) -> Vec<u32> {
 	s.chars().map(|c| c as u32).collect()
 }
 
-/// exact decimal text of an integer-valued non-negative double
+/// exact decimal text of an integer-valued non-negative double (`integer_digits` expands every
+/// finite double exactly; non-finite intermediate results are not reachable for the precisions
+/// and values explored here and are mapped to placeholders)
 fn exact(x: f64) -> String {
 	if x.is_nan() {
-		"0".to_owned() // `NaN as i64`
+		"0".to_owned()
 	} else if x.is_infinite() {
-		"9223372036854775808".to_owned() // saturates in `as i64`
+		"0".to_owned()
 	} else {
 		format!("{x:.0}")
 	}
@@ -127,6 +129,8 @@ fn err_name(e: &jrsonnet_evaluator::Error) -> &'static str {
 		ErrorKind::RuntimeError(m) => {
 			if m.starts_with("too many values") {
 				"tooMany"
+			} else if m.starts_with("%c expected a code point") {
+				"codepoint"
 			} else if m.starts_with("cannot convert number with fractional") || m.starts_with("%c expected") {
 				"type"
 			} else {
@@ -333,13 +337,11 @@ pub fn run(opts: &Opts) {
 	loop {
 		let st: String = buf.iter().map(|i| alphabet[*i]).collect();
 		// parse outcome of every string
-		let r = guarded(|| parse_codes(&st).map(|es| es.len()));
+		let r = guarded(|| parse_codes(&st).map(|es| (es.len(), format!("{es:?}"))));
 		let ans = match r {
-			Ok(Ok(n)) => {
-				let codes = st.matches('%').count();
-				let _ = codes;
-				json!({"ok": n, "codes": count_codes(&st)})
-			}
+			// `dbg`: the derived Debug text of the parsed elements (mapping key, every flag, width,
+			// precision, conversion, caps); the alphabet has no character that Debug escapes
+			Ok(Ok((n, dbg))) => json!({"ok": n, "codes": count_codes(&st), "dbg": dbg}),
 			Ok(Err(e)) => json!({"err": err_name(&e)}),
 			Err(p) => json!({"err":"panic","_msg":p}),
 		};
@@ -414,6 +416,60 @@ pub fn run(opts: &Opts) {
 		cx.case("wide", f, "arr", &[a3.clone()], &[6], false, false);
 		cx.case("wide", f, "arr", &[long.clone()], &[6], false, false);
 	}
+	// ---- (d) integer conversions of numbers beyond the i64 range (exact digits), float precision limit,
+	//          %c of negative numbers ---------------------------------------------------------------------
+	let big_srcs = [
+		"9223372036854775807", "9223372036854775808", "18446744073709551615", "18446744073709551616", "1e21", "1e22",
+		"123456789012345678901234567890", "1e100", "8.98846567431158e307", "1.7976931348623157e308", "-1e300",
+		"-9223372036854775809", "4.9406564584124654e-324", "340282366920938463463374607431768211456", "1e19", "-1e19",
+	];
+	let bigs: Vec<V> = big_srcs.iter().map(|x| mkval(&s, x, "huge")).collect();
+	let mut n_big = 0usize;
+	for v in &bigs {
+		for cv in ['d', 'i', 'u', 'o', 'x', 'X'] {
+			for fl in ["", "#", "0", "-", "+", " ", "#0", "+0", "#-", " #0"] {
+				for wp in ["", "5", "400", ".3", ".350", "330.340", "*", ".*"] {
+					let fmt = format!("%{fl}{wp}{cv}|");
+					let mut args: Vec<V> = vec![];
+					if wp.contains('*') {
+						args.push(numv("345"));
+					}
+					args.push(v.clone());
+					cx.case("big-int", &fmt, "arr", &args, &[], n_big % 64 == 0, false);
+					n_big += 1;
+				}
+			}
+		}
+	}
+	for v in [&a3, &values[5], &values[9], &values[15], &values[19]] {
+		for cv in ['e', 'E', 'f', 'F', 'g', 'G', 'd', 's'] {
+			for pr in [".308", ".309", ".310", ".65535", ".*"] {
+				for star in ["309", "308", "65535", "400"] {
+					if pr != ".*" && star != "309" {
+						continue;
+					}
+					// precision 308 itself is only explored with the value 0 (10^308 * v must stay finite)
+					let zero = numv("0");
+					let (val, p): (&V, u16) = if pr == ".308" || (pr == ".*" && star == "308") { (&zero, 308) } else { (v, 6) };
+					let fmt = format!("%{pr}{cv}|");
+					let mut args: Vec<V> = vec![];
+					if pr == ".*" {
+						args.push(numv(star));
+					}
+					args.push(val.clone());
+					cx.case("float-prec-limit", &fmt, "arr", &args, &[p, p.saturating_sub(1), 6, 5], true, false);
+				}
+			}
+		}
+	}
+	for src in ["-1", "-3", "-0.5", "-0.999", "-1e300", "-4294967296", "0", "65.9", "1114111.5", "4294967296", "1e300"] {
+		let v = numv(src);
+		for f in ["%c", "%5c|", "%-3c|", "%c%c"] {
+			cx.case("char-num", f, "arr", &[v.clone()], &[], true, false);
+			cx.case("char-num", f, "arr", &[v.clone(), a3.clone()], &[], false, false);
+		}
+	}
+
 	// seeded random format strings over a richer alphabet with 0..4 random values
 	let n_rand = if thorough { 60000 } else { 8000 };
 	let pool: Vec<V> = values.iter().chain(more.iter()).cloned().collect();
@@ -428,8 +484,8 @@ pub fn run(opts: &Opts) {
 
 	let meta = json!({
 		"engine":"c12","cases":cx.w.n,"cross_product":n_cross,"malformed_strings":n_mal,"via_evaluator":cx.n_eval,
-		"random":n_rand,"hist":cx.hist,
-		"rule":"flags(2^5) x width{none,0,1,5,*} x precision{none,.0,.1,.3,.*} x 15 conversions x values (ints, fractions, negative, zero, 1e21, 1e-7, 2^53+1, strings ASCII/non-ASCII, array, object, null) through std_format (1 in 16 also through `%`, std.format and std.mod from source); every string of length <= 4 over `%(.*0-+ #dsxg)k5` parsed (length <= 3 also formatted in 3 argument modes); argument-count/star/object-mode/wide-field tables; seeded random format strings"
+		"random":n_rand,"big_int":n_big,"hist":cx.hist,
+		"rule":"flags(2^5) x width{none,0,1,5,*} x precision{none,.0,.1,.3,.*} x 15 conversions x values (ints, fractions, negative, zero, 1e21, 1e-7, 2^53+1, strings ASCII/non-ASCII, array, object, null) through std_format (1 in 16 also through `%`, std.format and std.mod from source); every string of length <= 4 over `%(.*0-+ #dsxg)k5` parsed (length <= 3 also formatted in 3 argument modes); argument-count/star/object-mode/wide-field tables; integer conversions of 16 numbers beyond the i64 range x 6 conversions x 10 flag sets x 8 width/precision forms; float precisions 308/309/310/65535 (fixed and `*`); %c of negative / fractional / huge numbers; seeded random format strings; the parse of every enumerated string is compared field by field (Debug text of the elements)"
 	});
 	cx.w.finish(meta, &opts.out);
 }
